@@ -18,7 +18,7 @@ pub const API_FORMS: [&str; 6] = [
     "cloned",        // .clone() of the thread's long-lived instance, per call
 ];
 /// How a prepare/enforce argument is passed (`Into<Cow<str>>`).
-pub const ARG_FORMS: [&str; 5] = ["&str", "String", "&String", "Cow::Borrowed", "Cow::Owned"];
+pub const ARG_FORMS: [&str; 7] = ["&str", "String", "&String", "Cow::Borrowed", "Cow::Owned", "String(spare capacity)", "Cow::Owned(spare capacity)"];
 /// How each compare argument is passed (`AsRef<str>`).
 pub const CMP_FORMS: [&str; 4] = ["&str", "String", "Cow<str>", "Box<str>"];
 
@@ -523,7 +523,7 @@ pub fn gen_phased_workload(rng: &mut Rng, nthreads: usize, phases: usize) -> Wor
             let kind = rng.below(3) as u8;
             let profile = profs[rng.usize_below(profs.len())];
             let api = if rng.chance(1, 2) { 0 } else { rng.below(API_FORMS.len() as u64) as u8 };
-            let (fa, fb) = if kind == 2 { (rng.below(4) as u8, rng.below(4) as u8) } else { (rng.below(5) as u8, 0) };
+            let (fa, fb) = if kind == 2 { (rng.below(4) as u8, rng.below(4) as u8) } else { (rng.below(ARG_FORMS.len() as u64) as u8, 0) };
             let a = base + rng.usize_below(nstr);
             let b = if kind == 2 { base + rng.usize_below(nstr) } else { 0 };
             t.calls.push(Call { profile, kind, api, fa, fb, a, b });
